@@ -53,6 +53,10 @@ class SrvSession(P.RecSession):
 
     def data_received(self, data, datatype):
         P.RecSession.data_received(self, data, datatype)
+        if self.mode == 'noread' and self.chan is not None:
+            # an application that stops reading after the first chunk: what the client writes beyond the window
+            # stays queued there
+            self.chan.pause_reading()
         if self.mode == 'echo' and self.chan is not None:
             try:
                 self.chan.write(data)
@@ -68,7 +72,7 @@ class SrvSession(P.RecSession):
 
 
 def server_modes(tier):
-    return ['echo', 'silent', 'reject', 'close-on-exec', 'exit-now', 'write-eof']
+    return ['echo', 'silent', 'reject', 'close-on-exec', 'exit-now', 'write-eof', 'noread']
 
 
 # ------------------------------------------------------------------ client programs
@@ -290,8 +294,11 @@ def run(cfg, chooser):
         # ---- oracle 1: connection still up, channel closed both ways -------
         c_up = pair.c._transport is not None and pair.s._transport is not None
         single = prog not in ('two', 'sftp', 'sftp-cancel', 'rfwd', 'rfwd2')
+        # a side whose application has reading paused with data still buffered keeps its channel until it reads on:
+        # close is delivered after the data, not instead of it
+        holding = [s_ for s_ in w.env.get('server_sessions', []) if s_.chan is not None and s_.chan._recv_paused and s_.chan._recv_buf]
         if c_up and single and closes['cs'] >= 1 and closes['sc'] >= 1:
-            if pair.c._channels or pair.s._channels:
+            if pair.c._channels or (pair.s._channels and not holding):
                 viol.append(('channel-registered-after-close',
                              'CLOSE delivered both ways, connection up, channels still registered: '
                              'client=%r server=%r' % (list(pair.c._channels), list(pair.s._channels))))
@@ -301,9 +308,23 @@ def run(cfg, chooser):
                     viol.append(('waiter-hung-after-channel-close', 'task %r still pending after the '
                                  'channel was closed by both sides' % nm))
             for s in w.csess + w.env.get('server_sessions', []):
-                if s.lost != 1:
+                if s.lost != 1 and s not in holding:
                     viol.append(('session-close-count', '%s session saw connection_lost %d times '
                                  'after close handshake' % (s.name, s.lost)))
+        # ---- oracle 1b: abort() ends a channel whatever state it was in (data queued behind a closed window, a
+        # close() already pending): with the connection up and nothing in flight it is gone on the side that
+        # aborted and that side's waiters are released (the other side may keep it while ITS application has
+        # reading paused with data still buffered)
+        if c_up and single and (w.cchan or w.csess):
+            for act, side, conn in (('cchan.abort', 'client', pair.c), ('schan.abort', 'server', pair.s)):
+                if act in w.used and conn._channels:
+                    viol.append(('channel-left-after-abort', '%s called abort(), nothing is in flight, its channel is still registered: %r'
+                                 % (side, list(conn._channels))))
+            if 'cchan.abort' in w.used:
+                for nm in ('main', 'drain', 'read', 'readerr'):
+                    t = w.tasks.get(nm)
+                    if t is not None and not t.done():
+                        viol.append(('waiter-hung-after-abort', 'task %r still pending after abort()' % nm))
         pre = {k: t.done() for k, t in w.tasks.items()}
         # ---- final: lose the connection, fire all timers, everything must end ----
         if not pair.ct.lost:
@@ -644,7 +665,7 @@ def jobs(tier):
         modes = server_modes(tier) if prog in ('exec', 'stream', 'run', 'two') else ['echo']
         for mode in modes:
             cfg = (prog, mode)
-            bound = 2 if (tier == 'thorough' or prog in ('exec',)) else 1
+            bound = 2 if (tier == 'thorough' or prog in ('exec',) or mode == 'noread') else 1
             if bound == 1:
                 out.append((cfg, 1, ()))
             else:
